@@ -55,11 +55,51 @@ def intCart1Divergence (mth : Method) (dx : K) (a : Arr K) (n : Nat) : K :=
 def intCart2Divergence (mth : Method) (dx dy : K) (a : Arr K) (n m : Nat) : K :=
   sumTo (fun i => sumTo (fun j => dx * dy * cartDivergence mth [dx, dy] a [] [(i:Int), (j:Int)]) m) n
 
+def intCart3Divergence (mth : Method) (dx dy dz : K) (a : Arr K) (n m l : Nat) : K :=
+  sumTo (fun i => sumTo (fun j => sumTo (fun k =>
+    dx * dy * dz * cartDivergence mth [dx, dy, dz] a [] [(i:Int), (j:Int), (k:Int)]) l) m) n
+
 def intSphDivergence (conservative : Bool) (mth : Method) (r : Int → K) (dr : K) (a : Arr K) (n : Nat) : K :=
   sumTo (fun i => volSph r dr i * sphDivergence conservative mth r dr a i) n
 
 def intPolarDivergence (r : Int → K) (dr : K) (a : Arr K) (n : Nat) : K :=
   sumTo (fun i => volPolar r dr i * polarDivergence r dr a i) n
+
+/-! ### the boundary faces of the conserving conditions (what `grid.get_boundary_conditions` builds for
+`"periodic"`, `{"derivative": 0}`, `{"normal_value": 0}`), as input of `BC.setGhostAll` -/
+
+open PdeVerif.BC in
+/-- all faces of a grid in the order of `BoundariesList.set_ghost_cells` (axes in order, upper side first):
+conditions `cu ax` / `cl ax` on the upper / lower face of axis `ax`, `nu`/`nl` = normal-only condition -/
+def gridFaces (shape : List Nat) (rank : Nat) (dx : Nat → K) (cu cl : Nat → Cond K) (nu nl : Nat → Bool) :
+    List (Face × K × Cond K) :=
+  (List.range shape.length).flatMap fun ax =>
+    [(⟨shape, rank, ax, .upper, nu ax⟩, dx ax, cu ax), (⟨shape, rank, ax, .lower, nl ax⟩, dx ax, cl ax)]
+
+open PdeVerif.BC in
+/-- the condition of a conserving axis: periodic, or zero flux (`{"derivative": 0}`) for a scalar field,
+or vanishing normal component (`{"normal_value": 0}`) for a vector field -/
+def consCond (vector per : Bool) : Cond K :=
+  if per then .periodic false
+  else if vector then .dirichlet (fun _ => ((0:Nat):K)) else .neumann (fun _ => ((0:Nat):K))
+
+open PdeVerif.BC in
+/-- conserving conditions on all faces of a grid with the given shape -/
+def consFaces (shape : List Nat) (vector : Bool) (dxs : List K) (pers : List Bool) : List (Face × K × Cond K) :=
+  gridFaces shape (if vector then 1 else 0) (fun ax => dxs.getD ax ((1:Nat):K))
+    (fun ax => consCond vector (pers.getD ax false)) (fun ax => consCond vector (pers.getD ax false))
+    (fun ax => vector && !pers.getD ax false) (fun ax => vector && !pers.getD ax false)
+
+open PdeVerif.BC in
+/-- faces of a radially symmetric grid (`r`, then `z` for the cylinder): conserving conditions everywhere,
+except that the inner face (`r` lower) carries an arbitrary condition `cin` (normal-only flag `nin`) -/
+def radialFaces (shape : List Nat) (vector : Bool) (dxs : List K) (pers : List Bool) (cin : Cond K) (nin : Bool) :
+    List (Face × K × Cond K) :=
+  gridFaces shape (if vector then 1 else 0) (fun ax => dxs.getD ax ((1:Nat):K))
+    (fun ax => consCond vector (pers.getD ax false))
+    (fun ax => if ax = 0 then cin else consCond vector (pers.getD ax false))
+    (fun ax => vector && !pers.getD ax false)
+    (fun ax => if ax = 0 then nin else vector && !pers.getD ax false)
 
 end
 end PdeVerif.Conserve
